@@ -2,6 +2,7 @@
     [deliver maxsz evs] = the messages put on the gRPC stream when the shards produce the results [evs]
     (samplingSender.Send for each, then Flush; every forwarded event through gRPCChunkSender / chunk.SendAll). *)
 From ZV Require Import Lib.Base Model.Stream Model.StreamCollect Proofs.Stream Proofs.StreamCollect.
+From ZV Require Import Generated.StatsFields Proofs.StatsFields.
 From Coq Require Import Permutation.
 Open Scope Z_scope.
 
@@ -49,6 +50,46 @@ Theorem C25_stats_conserved_needs_nonneg_refuted : exists (evs : list event),
   zsum (msg_cnt 0) (deliver 1048576 evs) <> zsum (ev_cnt 0) evs.
 Proof. exists [mkev [] (mkstats [-5] 0 0%N) (Some 0) (Some 0)]. vm_compute. discriminate. Qed.
 Print Assumptions C25_stats_conserved_needs_nonneg_refuted.
+
+(** ---- Stats.Zero against Stats.Add, field by field. Generated/StatsFields.v is regenerated on every run from the
+    sources of the tree under check (translator/statsfields: the fields of `type Stats struct`, the `s.X += o.X` of
+    Stats.Add, the `s.X > 0` of Stats.Zero); the statements below are about THOSE lists, so they stop checking when
+    api.go changes in a way that breaks them. *)
+
+(** the model's Stats.Zero: on non-negative counters it answers "every counter is 0" — the sampler drops an
+    aggregate (at the 100th event, when merging, in Flush) only when there is nothing in it *)
+Theorem C25_zero_iff_all_counters_zero : forall s : stats,
+  Forall (fun x => 0 <= x) (st_cnt s) ->
+  (stats_zero s = true <-> Forall (fun x => x = 0) (st_cnt s)).
+Proof. exact stats_zero_iff_all_zero. Qed.
+Print Assumptions C25_zero_iff_all_counters_zero.
+
+(** Stats.Zero of the tree under check tests exactly the fields that Stats.Add sums (as sets; Add sums no field
+    twice or into another field; no statement of Add / leaf of Zero that the translator does not understand) *)
+Theorem C25_zero_tests_every_summed_counter : zero_add_agree = true.
+Proof. vm_compute. reflexivity. Qed.
+Print Assumptions C25_zero_tests_every_summed_counter.
+
+(** every field of zoekt.Stats is summed by Stats.Add or is a named exception (Duration: not touched;
+    FlushReason: first non-zero wins), the exceptions are neither summed nor tested, every summed field is a
+    signed integer *)
+Theorem C25_add_sums_every_counter_field : fields_accounted = true.
+Proof. vm_compute. reflexivity. Qed.
+Print Assumptions C25_add_sums_every_counter_field.
+
+(** hence the anonymous-vector model IS Zero / Add as written in api.go: on the counter vector labelled with the field
+    names (summed fields in struct order — the order in which the harness hands the counters over), "Zero looks at the
+    fields it names" = [stats_zero], "Add sums the fields it names" = [vadd] *)
+Theorem C25_named_zero_add_are_the_model : forall (a b : list Z),
+  length a = length stats_counter_order -> length b = length stats_counter_order ->
+  zero_named stats_zero_tested (combine stats_counter_order a) = stats_zero (mkstats a 0 0%N)
+  /\ map snd (add_named stats_add_summed (combine stats_counter_order a) (combine stats_counter_order b)) = vadd a b.
+Proof.
+  intros a b Ha Hb. split.
+  - apply zero_named_all; [vm_compute; reflexivity | symmetry; exact Ha].
+  - apply add_named_all; [vm_compute; reflexivity | symmetry; exact Ha | symmetry; exact Hb].
+Qed.
+Print Assumptions C25_named_zero_add_are_the_model.
 
 (** ---- with the collect stage in front (search/aggregate.go: newFlushCollectSender), for EVERY flush point
     (timer after k results, or only the final flush) and any ranking function that permutes its input:
@@ -105,3 +146,11 @@ Example C25_ex_collect :
 Proof. vm_compute. reflexivity. Qed.
 Example C25_ex_rank_perm : Permutation (sort_files [(2%N, 0%N); (1%N, 0%N)]) [(2%N, 0%N); (1%N, 0%N)].
 Proof. vm_compute. apply perm_swap. Qed.
+(** Stats.Zero law: non-vacuity (a non-negative vector that is Zero, one that is not; Duration / FlushReason ignored) *)
+Example C25_ex_zero : stats_zero (mkstats [0; 0; 0] 7 2%N) = true /\ stats_zero (mkstats [0; 0; 3] 0 0%N) = false
+  /\ Forall (fun x => 0 <= x) [0; 0; 3].
+Proof. split; [|split]; [vm_compute; reflexivity | vm_compute; reflexivity | repeat constructor; discriminate]. Qed.
+(** the generated lists are not empty, and a one-hot aggregate on the LAST counter of the vector is not Zero by name *)
+Example C25_ex_fields : stats_add_summed <> [] /\ length stats_counter_order = length stats_zero_tested
+  /\ zero_named stats_zero_tested (combine stats_counter_order (repeat 0 (length stats_counter_order - 1) ++ [1])) = false.
+Proof. split; [discriminate | split; vm_compute; reflexivity]. Qed.
